@@ -8,6 +8,8 @@
 #include "common.h"
 #include "api.h"
 #include <pthread.h>
+#include <unistd.h>
+#include <sys/wait.h>
 #define MAXT 16
 static Query *pool; static Result *ref; static int npool_q, ncalls, control;
 typedef struct { int t; uint64_t seed; int *idx; Result *res; } Work;
@@ -36,16 +38,31 @@ static void failing_query(Query *q) {
   else if (r < 9) { q->kind = 1; snprintf(q->s, sizeof q->s, "%s", BAD[rndint(3, 6)]); }
   else { q->kind = rndint(5, 6); q->ia[0] = (int[]){0, -3, 120, 4000}[rndint(0, 3)]; snprintf(q->s, sizeof q->s, "%s", BAD[rndint(0, 1)]); }
 }
-/* c17 <threads> <calls per thread> <pool size> [control|errors] */
+/* c17 <threads> <calls per thread> <pool size> [control | errors | family <first fn> <step>] */
 int cmd_c17(int argc, char **argv) {
   int T = argc > 0 ? atoi(argv[0]) : 8; ncalls = argc > 1 ? atoi(argv[1]) : 1000; npool_q = argc > 2 ? atoi(argv[2]) : 400; control = argc > 3 && !strcmp(argv[3], "control");
   if (T > MAXT) T = MAXT;
   pool = calloc(npool_q, sizeof *pool); ref = calloc(npool_q, sizeof *ref);
-  int errors_only = argc > 3 && !strcmp(argv[3], "errors");
-  for (int i = 0; i < npool_q; i++) { if (errors_only) failing_query(&pool[i]); else random_query(&pool[i]); ref[i] = run_query(&pool[i]); }
+  int errors_only = argc > 3 && !strcmp(argv[3], "errors"), family = argc > 5 && !strcmp(argv[3], "family");
+  int nf = 0; while (API_TABLE[nf].name) nf++;
+  int f_first = family ? atoi(argv[4]) : 0, f_step = family ? atoi(argv[5]) : nf + 1; long total = 0;
+  /* "family" mode: one phase per API function (first, first+step, ...): every thread hammers the same function with a small pool of argument tuples,
+   * half of the macro arguments taken from the two ends of the function's macro range (the grouped lines and other special cases live there) */
+  for (int fsel = f_first; fsel < (family ? nf : 1); fsel += f_step) {
+  for (int i = 0; i < npool_q; i++) {
+    if (errors_only) failing_query(&pool[i]); else random_query(&pool[i]);
+    if (family) { Query *q = &pool[i]; const ApiFn *f = &API_TABLE[fsel]; int r = rndint(0, 2); q->kind = 0; q->fn = fsel; q->ia[0] = rndint(0, 11) ? rndint(1, 98) : rndint(-1, 121);
+      q->ia[1] = r == 0 ? rndint(f->mlo, f->mhi) : r == 1 ? f->mhi - rndint(0, 7) : f->mlo + rndint(0, 7); }
+  }
+  /* the serial reference is computed in a forked child: the threads below start on a library that has not answered a single call in this process */
+  { int fd[2]; if (pipe(fd)) return 2; fflush(OUT); pid_t p = fork();
+    if (p == 0) { for (int i = 0; i < npool_q; i++) { Result r = run_query(&pool[i]); if (write(fd[1], &r, sizeof r) != (ssize_t)sizeof r) _exit(1); } _exit(0); }
+    close(fd[1]); for (int i = 0; i < npool_q; i++) { ref[i].ok = -8; ref[i].code = -8; ref[i].h = 0; if (read(fd[0], &ref[i], sizeof(Result)) != (ssize_t)sizeof(Result)) ref[i].ok = -8; }
+    close(fd[0]); int st; waitpid(p, &st, 0); }
   pthread_t th[MAXT]; Work w[MAXT];
   for (int t = 0; t < T; t++) { w[t].t = t; w[t].seed = rnd64(); w[t].idx = calloc(ncalls, sizeof(int)); w[t].res = calloc(ncalls, sizeof(Result)); pthread_create(&th[t], NULL, worker, &w[t]); }
   for (int t = 0; t < T; t++) pthread_join(th[t], NULL);
+  total += (long)T * ncalls;
   /* events are folded per (thread, query): count, and whether every execution agreed with the serial reference bit for bit */
   for (int t = 0; t < T; t++) {
     int *cnt = calloc(npool_q, sizeof(int)), *bad = calloc(npool_q, sizeof(int)); Result *first = calloc(npool_q, sizeof(Result));
@@ -55,8 +72,9 @@ int cmd_c17(int argc, char **argv) {
       fprintf(OUT, "{\"k\":\"thr\",\"t\":%d,\"q\":%d,\"n\":%d,\"bad\":%d,\"kind\":\"%s\",\"fn\":\"%s\",\"ia\":[%d,%d,%d],\"s\":", t, k, cnt[k], bad[k], QN[q->kind], q->kind == 0 ? API_TABLE[q->fn].name : QN[q->kind], q->ia[0], q->ia[1], q->ia[2]); jstr(q->s);
       fprintf(OUT, ",\"res\":[%d,%d,%d,%d],\"ref\":[%d,%d,%d,%d]}\n", first[k].ok, first[k].code, (int32_t)(first[k].h >> 32), (int32_t)(first[k].h & 0xffffffffu), ref[k].ok, ref[k].code, (int32_t)(ref[k].h >> 32), (int32_t)(ref[k].h & 0xffffffffu));
     }
-    free(cnt); free(bad); free(first);
+    free(cnt); free(bad); free(first); free(w[t].idx); free(w[t].res);
   }
-  fprintf(OUT, "{\"k\":\"sum\",\"threads\":%d,\"calls\":%d,\"pool\":%d,\"control\":%d}\n", T, T * ncalls, npool_q, control);
+  }
+  fprintf(OUT, "{\"k\":\"sum\",\"threads\":%d,\"calls\":%ld,\"pool\":%d,\"control\":%d}\n", T, total, npool_q, control);
   return 0;
 }
